@@ -11,17 +11,23 @@ function untranslatable, which is recorded (`status.json`) and leaves the corres
 
 Subset (everything else → `Untranslatable`):
   statements   x = e | x += e | x -= e | if/elif/else | for v in e | for i, v in enumerate(e) | continue (last
-               statement of an `if` body directly inside a loop body) | return e (function level, or last statement
-               of a function-level `if` body) | d[k] = e on a configured record list (an output column) | docstrings
+               statement of an `if` body directly inside a loop body) | return e (function level; a branch all of whose
+               paths return makes what follows the else branch) | d[k] = e on a configured record list (an output
+               column) | x = [] and x.append(e) on a local list | return / x = [E for v in xs if c] and
+               [y := E for v in xs] (list comprehension, one generator) | docstrings
+               with `raises=True` also: raise F(msg) | try: … except E [as e]: raise F(msg) [from e] (last statement)
   expressions  int / bool / str constants, names, + - * // % (// and % by a positive literal), >> k, & (2^k - 1),
                and / or on booleans (value context), not, comparisons, `x is None`, `x is not None`,
                `a if c else b`, max, min, len, ord, list displays, f-strings of str / int pieces,
                `{...}.get(k, default)` on a dict display, configured attribute paths, record fields (`r["f"]`,
-               `obj.f`), `isinstance(x, list)` decided by the static type of `x`
+               `obj.f`), `isinstance(x, list)` decided by the static type of `x`, float constants and + - * on
+               floats (as `Rat`), sum(list), None (where `T | None` is returned)
+               with `raises=True` also: a % b (b not a literal), a / b on floats, xs[i]
   conditions   (`if` / conditional-expression tests, operand of `not`): truthiness BY STATIC TYPE, `and` / `or` / `not`
                of conditions, narrowing of `Option` paths
-  types        Int (Python int, unbounded), Bool, Str = List Nat (code points), List T, Option T (a value that may be
-               `None`), configured records (objects of configured classes)
+  types        Int (Python int, unbounded), Bool, Str = List Nat (code points), Rat (Python float, EXACT), List T,
+               Option T (a value that may be `None`), configured records (objects of configured classes), configured
+               type parameters (`type_params`: values the function only moves around)
 
 Python semantics relied on: ints are unbounded (Lean `Int`); `//` and `%` by a positive literal are floor division
 and its remainder (= Lean's `/` and `%` on `Int` for a positive divisor); `x >> k` = ⌊x / 2^k⌋ and `x & (2^k-1)` =
@@ -46,6 +52,29 @@ ends in `continue` / `return` — in the statements after `if not P:` / `if P is
 is the narrowed branch).  `if P:` on a list path whose body reads `P[0]` becomes `match P with | [] => … | v :: _ => …`
 with `P[0] := v` (no other subscript by a number is translated, so `IndexError` cannot arise).  Narrowing facts are
 dropped at loop boundaries.
+
+Exceptions (`raises=True`).  The function is translated into `Except Generated.Py.Exc`, statement sequences become
+`do` blocks, loops `List.foldlM`.  An exception is its class only (`IndexError`, `KeyError`, `ZeroDivisionError`,
+`ValueError`, `TypeError`, `AttributeError`: leaves of the hierarchy, so `except E` catches exactly `Exc.E`; messages,
+`__cause__` and tracebacks are not modelled, and the arguments of a raised exception must be constants or f-strings
+over translatable, non-raising expressions or the caught exception).  Operations that may raise are bound to
+temporaries `let tN ← …` IN PYTHON'S EVALUATION ORDER (operands left to right, the container of a subscript before its
+index, an inner subscript completely before the outer index) in front of the statement they occur in; one occurring
+where evaluation is conditional (right operands of `and` / `or`, branches of a conditional expression) is rejected.
+  `a % b`   ints: `ZeroDivisionError` for `b = 0`, otherwise the remainder of floor division (`Int.fmod`, sign of `b`)
+  `a / b`   floats: `ZeroDivisionError` for `b = 0`, otherwise the quotient
+  `xs[i]`   list: for `-len ≤ i < 0` the element `len + i`, outside `-len ≤ i < len` `IndexError`
+  `try`     handlers are tried in order, an exception none of them names propagates, a normal result passes through
+Without `raises=True` such operations are not translated at all.
+
+Floats are translated as EXACT rationals (`Rat`): `+ - * /` and `sum` (which adds from the left, starting from the int
+0) are the exact operations; rounding, overflow, `inf`, `nan` and the int/float distinction of a result are not
+represented.  This is the float caveat of the trusted base (DESIGN §6) and is repeated in the header of every generated
+file that uses it.
+
+List comprehensions.  `[E for v in xs if c]` is the loop `lc = []; for v in xs: if c: lc.append(E)`; the loop variable
+is local to the comprehension; a walrus `[y := E for …]` assigns the enclosing function's variable `y` (PEP 572) and
+appends its new value.  `x = []` gets its element type from the first `append`.
 
 `isinstance(x, list)` is decided statically: `x : List _` is a Python `list` → True; an int, bool, str, `None`, or a
 record object is not → False.  An `if` (or `if not`) on such a test is translated as its live branch only — the other
@@ -144,6 +173,24 @@ TARGETS = [
         records={}, params=[("text", "Str")], skip_params=[], env={}, alias={}, outputs={}, returns={},
         ret_type="Str",
     ),
+    dict(
+        name="Iloc", file="attributes.py", cls="BroadcastValue", func="iloc", raises=True, type_params=["Elt"],
+        doc="BroadcastValue.iloc: the binding rule of every cell attribute, `value[r % len(value)][c % len(value[0])]`.\n"
+            "`self.value` is `None` or a Python list of Python lists (`_to_nested_list` has been applied by the\n"
+            "field validator) of elements of any type `Elt`; the indices are ints (any sign).",
+        records={}, params=[("value", "Option (List (List Elt))"), ("row_index", "Int"), ("column_index", "Int")],
+        skip_params=["self"], env={"self.value": ("value", "Option (List (List Elt))")},
+        alias={}, outputs={}, returns={}, ret_type="Option Elt",
+    ),
+    dict(
+        name="ColWidths", file="row.py", cls="Utils", func="_col_widths", raises=True,
+        doc="Utils._col_widths: relative widths → cumulative absolute widths (the right edge of every column).\n"
+            "FLOATS ARE TRANSLATED AS EXACT RATIONALS (`Rat`): `+`, `*`, `/` and `sum` are the exact operations, so\n"
+            "rounding, overflow, `inf` and `nan` are not represented (DESIGN §6: IEEE-754 arithmetic is modelled, not\n"
+            "verified; the correspondence of C08 excludes and counts near-boundary cases).",
+        records={}, params=[("rel_widths", "List Rat"), ("col_width", "Rat")], skip_params=[], env={},
+        alias={}, outputs={}, returns={}, ret_type="List Rat",
+    ),
     _additional_rows("AdditionalRowsFlat", "List (Option Comp)", "a flat list `[header | None, …]`"),
     _additional_rows("AdditionalRowsNested", "List (List (Option Comp))",
                      "a nested list `[[header | None, …], …]` (one Python list per section)"),
@@ -156,7 +203,7 @@ def lean_str(s: str) -> str:
     return "[" + ", ".join(str(ord(c)) for c in s) + "]"
 
 
-DEFAULT = {"Int": "0", "Bool": "false", "Str": "[]", "List Int": "[]", "Char": "0"}
+DEFAULT = {"Int": "0", "Bool": "false", "Str": "[]", "List Int": "[]", "Char": "0", "Rat": "0"}
 
 
 class Fn:
@@ -170,6 +217,12 @@ class Fn:
         self.loops: list[str] = []               # emitted loop-body definitions, innermost first
         self.loopvars: list[tuple[str, str]] = []     # enclosing loop variables (lean name, lean type)
         self.narrow: dict[str, tuple[str, str]] = {}  # source path → (lean term, type) known on the current path
+        # `raises=True`: the function is translated into the exception monad `Except Generated.Py.Exc`; an operation
+        # that may raise is bound to a temporary (`let tN ← …`) in evaluation order before the statement it occurs in
+        self.M = bool(cfg.get("raises"))
+        self.DO = " do" if self.M else ""
+        self.pending: list[str] = []
+        self.ntmp = 0
         for out, ty in cfg["outputs"].items():
             self.vars["out_" + out] = f"List {ty}"
 
@@ -187,6 +240,11 @@ class Fn:
                 return f"({e.value} : Int)", "Int"
             if isinstance(e.value, str):
                 return f"({lean_str(e.value)} : List Nat)", "Str"
+            if isinstance(e.value, float) and e.value == e.value and abs(e.value) != float("inf"):
+                num, den = e.value.as_integer_ratio()
+                return (f"({num} : Rat)" if den == 1 else f"(({num} : Rat) / {den})"), "Rat"
+            if e.value is None:
+                return "none", "None"
             raise Untranslatable(f"constant {src}")
         if isinstance(e, ast.Name):
             if e.id in self.bound:
@@ -200,6 +258,16 @@ class Fn:
             raise Untranslatable(f"unknown name {e.id}")
         if isinstance(e, ast.BinOp):
             a, ta = self.expr(e.left, defined)
+            if isinstance(e.op, ast.Mod) and ta == "Int" and not isinstance(e.right, ast.Constant):
+                b, tb = self.expr(e.right, defined)
+                if tb == "Int":          # `a % b`: ZeroDivisionError for b = 0, otherwise the remainder with b's sign
+                    return self.tmp(f"Generated.Py.pyMod {a} {b}", src), "Int"
+                raise Untranslatable(f"operator % on {ta}, {tb} in {src}")
+            if isinstance(e.op, ast.Div):
+                b, tb = self.expr(e.right, defined)
+                if {ta, tb} <= {"Rat", "Int"} and "Rat" in (ta, tb):     # float division: ZeroDivisionError for 0
+                    return self.tmp(f"Generated.Py.pyDiv {self.rat(a, ta)} {self.rat(b, tb)}", src), "Rat"
+                raise Untranslatable(f"operator / on {ta}, {tb} in {src}")
             if isinstance(e.op, (ast.RShift, ast.BitAnd, ast.FloorDiv, ast.Mod)):
                 if not (isinstance(e.right, ast.Constant) and isinstance(e.right.value, int) and ta == "Int"):
                     raise Untranslatable(f"operator in {src} needs an int literal on the right")
@@ -217,6 +285,9 @@ class Fn:
             if isinstance(e.op, (ast.Add, ast.Sub, ast.Mult)) and ta == tb == "Int":
                 op = {ast.Add: "+", ast.Sub: "-", ast.Mult: "*"}[type(e.op)]
                 return f"({a} {op} {b})", "Int"
+            if isinstance(e.op, (ast.Add, ast.Sub, ast.Mult)) and {ta, tb} <= {"Rat", "Int"}:
+                op = {ast.Add: "+", ast.Sub: "-", ast.Mult: "*"}[type(e.op)]
+                return f"({self.rat(a, ta)} {op} {self.rat(b, tb)})", "Rat"
             if isinstance(e.op, ast.Add) and ta == tb and (ta == "Str" or ta.startswith("List ")):
                 return f"({a} ++ {b})", ta
             if isinstance(e.op, ast.Add) and ta == "Str" and tb == "Char":
@@ -225,7 +296,8 @@ class Fn:
         if isinstance(e, ast.BoolOp):
             # value context: `a and b` / `a or b` return one of their operands, so they are only accepted when every
             # operand is a Bool (then the value is the conjunction / disjunction).  Condition context: `cond`.
-            parts = [self.expr(v, defined) for v in e.values]
+            parts = [self.expr(e.values[0], defined)] + \
+                    [self.guarded(lambda v=v: self.expr(v, defined), src) for v in e.values[1:]]
             if any(t != "Bool" for _, t in parts):
                 raise Untranslatable(f"and/or on non-boolean operands in value context: {src}")
             op = " && " if isinstance(e.op, ast.And) else " || "
@@ -255,15 +327,15 @@ class Fn:
             if ta != tb:
                 raise Untranslatable(f"comparison of {ta} with {tb} in {src}")
             ops = {ast.Lt: "<", ast.LtE: "≤", ast.Gt: ">", ast.GtE: "≥", ast.Eq: "=", ast.NotEq: "≠"}
-            if type(e.ops[0]) not in ops or (ta not in ("Int", "Str", "Bool")):
+            if type(e.ops[0]) not in ops or (ta not in ("Int", "Str", "Bool", "Rat")):
                 raise Untranslatable(f"comparison {src}")
-            if ta != "Int" and type(e.ops[0]) not in (ast.Eq, ast.NotEq):
+            if ta not in ("Int", "Rat") and type(e.ops[0]) not in (ast.Eq, ast.NotEq):
                 raise Untranslatable(f"ordering on {ta} in {src}")
             return f"(decide ({a} {ops[type(e.ops[0])]} {b}))", "Bool"
         if isinstance(e, ast.IfExp):
             c, tc = self.cond(e.test, defined), "Bool"
-            a, ta = self.expr(e.body, defined)
-            b, tb = self.expr(e.orelse, defined)
+            a, ta = self.guarded(lambda: self.expr(e.body, defined), src)
+            b, tb = self.guarded(lambda: self.expr(e.orelse, defined), src)
             if tc != "Bool" or ta != tb:
                 raise Untranslatable(f"conditional expression {src}")
             return f"(if {c} then {a} else {b})", ta
@@ -305,6 +377,10 @@ class Fn:
                 a, ta = self.expr(e.args[0], defined)
                 if ta == "Str" or t_arg(ta, "List") is not None:
                     return f"(Int.ofNat {a}.length)", "Int"
+            if isinstance(f, ast.Name) and f.id == "sum" and len(e.args) == 1 and not e.keywords:
+                a, ta = self.expr(e.args[0], defined)
+                if ta in ("List Rat", "List Int"):       # 0 + x0 + x1 + …, left to right
+                    return f"(Generated.Py.sum{ta[5:]} {a})", ta[5:]
             if isinstance(f, ast.Name) and f.id == "isinstance" and len(e.args) == 2 and not e.keywords:
                 return ("true" if self.static_isinstance(e, defined) else "false"), "Bool"
             if isinstance(f, ast.Attribute) and f.attr == "get" and isinstance(f.value, ast.Name) and len(e.args) == 2:
@@ -318,6 +394,14 @@ class Fn:
             fields = dict(self.cfg["records"].get(ta, []))
             if e.slice.value in fields:
                 return f"{a}.{e.slice.value}", fields[e.slice.value]
+        if isinstance(e, ast.Subscript) and not isinstance(e.slice, (ast.Slice, ast.Tuple)):
+            a, ta = self.expr(e.value, defined)         # Python evaluates the container first, then the index
+            elt = t_arg(ta, "List")
+            if elt is not None:
+                i, ti = self.expr(e.slice, defined)
+                if ti == "Int":      # IndexError outside -len ≤ i < len; a negative index counts from the end
+                    return self.tmp(f"Generated.Py.pyIndex {a} {i}", src), elt
+            raise Untranslatable(f"subscript {src} on {ta}")
         if isinstance(e, ast.Attribute):
             # field of a configured record (an object attribute); `None.attr` cannot arise: an Option must have been
             # narrowed (`x and x.attr`, `if x:`, `x is not None and …`) before a field is read
@@ -327,6 +411,36 @@ class Fn:
                 return f"{a}.{e.attr}", fields[e.attr]
             raise Untranslatable(f"attribute {e.attr} of a value of type {ta} in {src}")
         raise Untranslatable(f"expression {src}")
+
+    # ---- operations that may raise
+    def tmp(self, monadic: str, src: str) -> str:
+        if not self.M:
+            raise Untranslatable(f"{src} may raise, and the function is not translated with exceptions (raises=True)")
+        self.ntmp += 1
+        t = f"t{self.ntmp}"
+        self.pending.append(f"let {t} ← {monadic}")
+        return t
+
+    def guarded(self, thunk, src):
+        """translate a conditionally evaluated sub-expression: it must not contain an operation that may raise (it
+        would be hoisted in front of the condition that guards it)"""
+        n = len(self.pending)
+        r = thunk()
+        if len(self.pending) != n:
+            del self.pending[n:]
+            raise Untranslatable(f"an operation that may raise in a conditionally evaluated position of {src}")
+        return r
+
+    def flush(self, ind: str) -> str:
+        out = "".join(f"{ind}{l}\n" for l in self.pending)
+        self.pending = []
+        return out
+
+    def fin(self, ind: str) -> str:
+        return f"{ind}pure s" if self.M else f"{ind}s"
+
+    def rat(self, term: str, ty: str) -> str:
+        return term if ty == "Rat" else f"(({term} : Int) : Rat)"
 
     # ---- conditions (`if` tests, operands of `not`, tests of conditional expressions): Python truthiness BY TYPE
     def truthy(self, term: str, ty: str) -> str:
@@ -390,7 +504,9 @@ class Fn:
                     pass
             return self.cond_and(list(e.values), defined)
         if isinstance(e, ast.BoolOp) and isinstance(e.op, ast.Or):
-            return "(" + " || ".join(self.cond(v, defined) for v in e.values) + ")"
+            return "(" + " || ".join([self.cond(e.values[0], defined)] +
+                                     [self.guarded(lambda v=v: self.cond(v, defined), ast.unparse(e))
+                                      for v in e.values[1:]]) + ")"
         if isinstance(e, ast.UnaryOp) and isinstance(e.op, ast.Not):
             return f"(!{self.cond(e.operand, defined)})"
         v, t = self.expr(e, defined)
@@ -402,13 +518,14 @@ class Fn:
             return self.cond(first, defined)
         ot = self.option_test(first, defined)
         if ot is None:
-            return f"({self.cond(first, defined)} && {self.cond_and(rest, defined)})"
+            c1 = self.cond(first, defined)
+            return f"({c1} && {self.guarded(lambda: self.cond_and(rest, defined), 'and')})"
         term, inner, key, truthiness = ot
         v = self.binder()
         saved = dict(self.narrow)
         self.narrow[key] = (v, inner)
         try:
-            r = self.cond_and(rest, defined)
+            r = self.guarded(lambda: self.cond_and(rest, defined), "and")
         finally:
             self.narrow = saved
         tv = self.truthy(v, inner) if truthiness else "true"
@@ -495,10 +612,50 @@ class Fn:
         """→ (term, defined_after, kind) with kind ∈ {fall, return}; at function level a `return` closes the term with
         a value of the return type, otherwise the term is the state."""
         if not stmts:
-            return f"{ind}s", set(defined), "fall"
+            return self.fin(ind), set(defined), "fall"
         st, rest = stmts[0], stmts[1:]
         if isinstance(st, ast.Expr) and isinstance(st.value, ast.Constant) and isinstance(st.value.value, str):
             return self.block(rest, defined, in_loop, ind)          # docstring
+        # ---- list comprehension `[E for v in xs]` / `[x := E for v in xs]` (returned or assigned): the loop
+        # `lc = []; for v in xs: (x = E;) lc.append(E or x)`.  The comprehension's loop variable is local to it (it is
+        # a loop variable here too); a walrus target is a variable of the enclosing function (PEP 572).
+        if isinstance(st, (ast.Return, ast.Assign)) and isinstance(st.value, ast.ListComp):
+            lc = st.value
+            g = lc.generators[0]
+            if len(lc.generators) != 1 or g.is_async or isinstance(st, ast.Assign) and not (
+                    len(st.targets) == 1 and isinstance(st.targets[0], ast.Name)):
+                raise Untranslatable(f"comprehension {ast.unparse(lc)}")
+            self.fresh_lc = getattr(self, "fresh_lc", 0) + 1
+            name = f"lc{self.fresh_lc}" if isinstance(st, ast.Return) else st.targets[0].id
+            pre, val = [], lc.elt
+            if isinstance(val, ast.NamedExpr):
+                pre, val = [ast.Assign(targets=[val.target], value=val.value, lineno=st.lineno)], val.target
+            app = ast.Expr(ast.Call(func=ast.Attribute(value=ast.Name(id=name, ctx=ast.Load()), attr="append",
+                                                       ctx=ast.Load()), args=[val], keywords=[]))
+            inner = pre + [app]
+            for cnd in reversed(g.ifs):
+                inner = [ast.If(test=cnd, body=inner, orelse=[])]
+            new = [ast.Assign(targets=[ast.Name(id=name, ctx=ast.Store())], value=ast.List(elts=[], ctx=ast.Load()),
+                              lineno=st.lineno),
+                   ast.For(target=g.target, iter=g.iter, body=inner, orelse=[], lineno=st.lineno)]
+            if isinstance(st, ast.Return):
+                new.append(ast.Return(value=ast.Name(id=name, ctx=ast.Load())))
+            return self.block([ast.fix_missing_locations(x) for x in new] + rest, defined, in_loop, ind)
+        # ---- `xs.append(e)` on a local list
+        if isinstance(st, ast.Expr) and isinstance(st.value, ast.Call) and isinstance(st.value.func, ast.Attribute) \
+                and st.value.func.attr == "append" and isinstance(st.value.func.value, ast.Name) \
+                and len(st.value.args) == 1 and not st.value.keywords:
+            name = st.value.func.value.id
+            if name not in self.vars or name not in defined or t_arg(self.vars[name], "List") is None:
+                raise Untranslatable(f"append to {name}, which is not a local list")
+            v, ty = self.expr(st.value.args[0], defined)
+            if self.vars[name] == "List ?":
+                self.vars[name] = t_app("List", ty)
+            if self.vars[name] != t_app("List", ty):
+                raise Untranslatable(f"append of a {ty} to {name} : {self.vars[name]}")
+            pre = self.flush(ind)
+            term, d2, kind = self.block(rest, defined, in_loop, ind)
+            return f"{pre}{ind}let s := {{ s with {name} := s.{name} ++ [{v}] }}\n{term}", d2, kind
         if isinstance(st, ast.Assign) and len(st.targets) == 1:
             tgt = st.targets[0]
             src = ast.unparse(st.value)
@@ -511,18 +668,26 @@ class Fn:
             if isinstance(tgt, ast.Name):
                 if tgt.id in self.bound or (tgt.id in self.params and tgt.id not in self.vars):
                     raise Untranslatable(f"assignment to the parameter / loop variable {tgt.id}")
-                v, ty = self.expr(st.value, defined)
-                self.declare(tgt.id, ty)
+                if isinstance(st.value, ast.List) and not st.value.elts:
+                    v, ty = "[]", self.vars.get(tgt.id, "List ?")      # element type: fixed by the first `append`
+                    if t_arg(ty, "List") is None:
+                        raise Untranslatable(f"variable {tgt.id} used at types {ty} and list")
+                    self.vars[tgt.id] = ty
+                else:
+                    v, ty = self.expr(st.value, defined)
+                    self.declare(tgt.id, ty)
+                pre = self.flush(ind)
                 term, d2, kind = self.block(rest, defined | {tgt.id}, in_loop, ind)
-                return f"{ind}let s := {{ s with {tgt.id} := {v} }}\n{term}", d2, kind
+                return f"{pre}{ind}let s := {{ s with {tgt.id} := {v} }}\n{term}", d2, kind
             if isinstance(tgt, ast.Subscript) and isinstance(tgt.slice, ast.Constant) and \
                     tgt.slice.value in self.cfg["outputs"] and in_loop:
                 v, ty = self.expr(st.value, defined)
                 if ty != self.cfg["outputs"][tgt.slice.value]:
                     raise Untranslatable(f"output column {tgt.slice.value} written at type {ty}")
                 col = "out_" + tgt.slice.value
+                pre = self.flush(ind)
                 term, d2, kind = self.block(rest, defined, in_loop, ind)
-                return f"{ind}let s := {{ s with {col} := s.{col} ++ [{v}] }}\n{term}", d2, kind
+                return f"{pre}{ind}let s := {{ s with {col} := s.{col} ++ [{v}] }}\n{term}", d2, kind
             raise Untranslatable(f"assignment {ast.unparse(st)}")
         if isinstance(st, ast.AugAssign) and isinstance(st.target, ast.Name) and isinstance(st.op, (ast.Add, ast.Sub)):
             new = ast.Assign(targets=[st.target], value=ast.BinOp(left=ast.Name(id=st.target.id, ctx=ast.Load()),
@@ -539,26 +704,26 @@ class Fn:
                 live = body if self.static_isinstance(t0, defined) != flip else orelse
                 return self.block(live + rest, defined, in_loop, ind)
             test = self.test(st, defined)
+            pre = self.flush(ind)
             ends_continue = in_loop and body and isinstance(body[-1], ast.Continue)
-            ends_return = (not in_loop) and body and isinstance(body[-1], ast.Return)
             if ends_continue:
                 a, _, _ = self.narrowed(test, lambda: self.block(body[:-1], defined, in_loop, ind + "    "))
                 b, d2, kind = self.narrowed(test, lambda: self.block(orelse + rest, defined, in_loop, ind + "    "),
                                             "else")
-                return test.wrap(a, b, ind), d2, kind
-            if ends_return:
-                a, _, _ = self.narrowed(test, lambda: self.block(body, defined, in_loop, ind + "    "))
+                return pre + test.wrap(a, b, ind, self.DO), d2, kind
+            a, da, ka = self.narrowed(test, lambda: self.block(body, defined, in_loop, ind + "    "))
+            if ka == "return":       # every path through the body returns / raises: what follows is the else branch
                 b, d2, kind = self.narrowed(test, lambda: self.block(orelse + rest, defined, in_loop, ind + "    "),
                                             "else")
-                if kind != "return":
+                if kind != "return" and not in_loop:
                     raise Untranslatable("a path reaches the end of the function without a return")
-                return test.wrap(a, b, ind), d2, "return"
-            a, da, ka = self.narrowed(test, lambda: self.block(body, defined, in_loop, ind + "    "))
+                return pre + test.wrap(a, b, ind, self.DO), d2, kind
             b, db, kb = self.narrowed(test, lambda: self.block(orelse, defined, in_loop, ind + "    "), "else")
             if ka != "fall" or kb != "fall":
                 raise Untranslatable("return / continue in the middle of a branch")
             term, d2, kind = self.block(rest, da & db, in_loop, ind)
-            return f"{ind}let s :=\n{test.wrap(a, b, ind + '  ')}\n{term}", d2, kind
+            return (f"{pre}{ind}let s {'←' if self.M else ':='}\n{test.wrap(a, b, ind + '  ', self.DO)}\n{term}",
+                    d2, kind)
         if isinstance(st, ast.For) and not st.orelse:
             it = st.iter
             self.fresh += 1
@@ -588,6 +753,7 @@ class Fn:
                 xty = lean_type(elt)
             else:
                 raise Untranslatable(f"loop header {ast.unparse(st.target)} in {ast.unparse(it)}")
+            pre = self.flush(ind)
             outer = list(self.loopvars)
             self.loopvars.append((x, xty))
             saved_narrow, self.narrow = self.narrow, {}     # match binders are not in scope of the loop definition
@@ -597,25 +763,87 @@ class Fn:
             if kind != "fall":
                 raise Untranslatable("return inside a loop")
             self.bound = saved
-            params = " ".join(f"({p} : {lean_type(t)})" for p, t in self.cfg["params"])
+            params = self.tparams() + " ".join(f"({p} : {lean_type(t)})" for p, t in self.cfg["params"])
             outer_decl = " ".join(f"({a} : {t})" for a, t in outer)
+            sig = f"Except Exc {self.st_type()} := do" if self.M else f"{self.st_type()} :="
             self.loops.append(f"/-- body of loop {n}: `{ast.unparse(st).splitlines()[0]}` -/\n"
-                              f"def loop{n} {params} {outer_decl} (s : St) ({x} : {xty}) : St :=\n{body}\n")
+                              f"def loop{n} {params} {outer_decl} (s : {self.st_type()}) ({x} : {xty}) : {sig}\n{body}\n")
             args = " ".join([p for p, _ in self.cfg["params"]] + [a for a, _ in outer])
             # variables first assigned inside the loop are not definitely assigned after it
             term, d2, kind = self.block(rest, defined, in_loop, ind)
+            if self.M:
+                return f"{pre}{ind}let s ← {xs}.foldlM (loop{n} {args}) s\n{term}", d2, kind
             return f"{ind}let s := {xs}.foldl (loop{n} {args}) s\n{term}", d2, kind
         if isinstance(st, ast.Return) and not in_loop:
             if rest:
                 raise Untranslatable("statements after return")
             src = ast.unparse(st.value) if st.value is not None else "None"
+            pure = "pure " if self.M else ""
             if src in self.cfg["returns"]:
-                return f"{ind}{self.cfg['returns'][src]}", defined, "return"
-            v, ty = self.expr(st.value, defined)
-            if ty != self.cfg["ret_type"]:
-                raise Untranslatable(f"return of type {ty}, expected {self.cfg['ret_type']}")
-            return f"{ind}{v}", defined, "return"
+                return f"{ind}{pure}{self.cfg['returns'][src]}", defined, "return"
+            v, ty = self.expr(st.value if st.value is not None else ast.Constant(value=None), defined)
+            rt = self.cfg["ret_type"]
+            if ty == "None" and t_arg(rt, "Option") is not None:
+                v, ty = f"(none : {lean_type(rt)})", rt                    # `return None` where `T | None` is returned
+            elif ty == t_arg(rt, "Option"):
+                v, ty = f"(some {v})", rt
+            if ty != rt:
+                raise Untranslatable(f"return of type {ty}, expected {rt}")
+            return f"{self.flush(ind)}{ind}{pure}{v}", defined, "return"
+        if isinstance(st, ast.Raise) and self.M:
+            if rest:
+                raise Untranslatable("statements after raise")
+            return f"{ind}throw Exc.{self.raised_class(st, defined)}", defined, "return"
+        if isinstance(st, ast.Try) and self.M and not st.orelse and not st.finalbody and st.handlers:
+            # try: BODY (every path returns or raises)  except E1 [as e]: raise F1(...) [from e] …  — as the last
+            # statement.  Handlers are tried in order; only leaf classes of `Exc` are accepted, so "is an instance
+            # of E" is "is E"; an exception no handler names propagates unchanged
+            if rest:
+                raise Untranslatable("statements after try")
+            body, d2, kind = self.block(list(st.body), defined, in_loop, ind + "    ")
+            if kind != "return":
+                raise Untranslatable("a try body that can fall through")
+            arms, seen = [], set()
+            for h in st.handlers:
+                if not (isinstance(h.type, ast.Name) and h.type.id in EXC_CLASSES) or h.type.id in seen:
+                    raise Untranslatable(f"handler {ast.unparse(h.type) if h.type else 'bare except'}")
+                seen.add(h.type.id)
+                if not (len(h.body) == 1 and isinstance(h.body[0], ast.Raise)):
+                    raise Untranslatable(f"handler body of except {h.type.id}")
+                arms.append(f"{ind}| .error Exc.{h.type.id} => throw Exc.{self.raised_class(h.body[0], defined, h.name)}")
+            rty = self.st_type() if in_loop else lean_type(self.cfg["ret_type"])
+            return (f"{ind}(match (show Except Exc {t_paren(rty)} from do\n{body}) with\n" + "\n".join(arms) +
+                    f"\n{ind}| r => r)"), d2, "return"
         raise Untranslatable(f"statement {ast.unparse(st).splitlines()[0]}")
+
+    def raised_class(self, st: ast.Raise, defined, exc_name=None) -> str:
+        """`raise F(args) [from e]` → F; the arguments (a message) are not modelled but must be harmless: constants
+        and f-strings over translatable expressions or the caught exception"""
+        exc = st.exc
+        if not (isinstance(exc, ast.Call) and isinstance(exc.func, ast.Name) and exc.func.id in EXC_CLASSES
+                and not exc.keywords):
+            raise Untranslatable(f"raise {ast.unparse(exc) if exc else ''}")
+        if st.cause is not None and not (isinstance(st.cause, ast.Name) and st.cause.id == exc_name):
+            raise Untranslatable(f"raise … from {ast.unparse(st.cause)}")
+        for a in exc.args:
+            pieces = a.values if isinstance(a, ast.JoinedStr) else [a]
+            for p in pieces:
+                if isinstance(p, ast.FormattedValue):
+                    if p.format_spec is not None:
+                        raise Untranslatable(f"format spec in {ast.unparse(a)}")
+                    p = p.value
+                if isinstance(p, ast.Constant) or (isinstance(p, ast.Name) and p.id == exc_name):
+                    continue
+                self.guarded(lambda p=p: self.expr(p, defined), ast.unparse(a))
+        return exc.func.id
+
+    def st_type(self) -> str:
+        tp = self.cfg.get("type_params") or []
+        return ("(St " + " ".join(tp) + ")") if tp else "St"
+
+    def tparams(self) -> str:
+        tp = self.cfg.get("type_params") or []
+        return ("{" + " ".join(tp) + " : Type} ") if tp else ""
 
 
 class Test:
@@ -626,17 +854,26 @@ class Test:
         # facts known in the `then` branch / in the `else` branch (and, after a guard that leaves, in what follows)
         self.narrow, self.narrow_else = ({}, narrow or {}) if negated else (narrow or {}, {})
 
-    def wrap(self, a: str, b: str, ind: str) -> str:
-        """the Lean term `if test then a else b` (`a`, `b` already indented deeper than `ind`)"""
+    def wrap(self, a: str, b: str, ind: str, do: str = "") -> str:
+        """the Lean term `if test then a else b` (`a`, `b` already indented deeper than `ind`; `do` = " do" when the
+        branches are statement sequences of the exception monad)"""
         if self.kind == "bool":
-            return f"{ind}if {self.c} then\n{a}\n{ind}else\n{b}"
+            return f"{ind}if {self.c} then{do}\n{a}\n{ind}else{do}\n{b}"
         if self.negated:             # `if P is None:` / `if not P:` — the roles of the branches are exchanged
             a, b = b, a
         if self.c is not None:       # Option whose content has a truthiness of its own
-            a = (f"{ind}    if {self.c} then\n{textwrap.indent(a, '    ')}\n{ind}    else\n"
+            a = (f"{ind}    if {self.c} then{do}\n{textwrap.indent(a, '    ')}\n{ind}    else{do}\n"
                  f"{textwrap.indent(b, '    ')}")
+            return f"{ind}(match {self.scrut} with\n{ind}| none =>{do}\n{b}\n{ind}| {self.pat} =>\n{a})"
         empty = "none" if self.kind == "option" else "[]"
-        return f"{ind}(match {self.scrut} with\n{ind}| {empty} =>\n{b}\n{ind}| {self.pat} =>\n{a})"
+        return f"{ind}(match {self.scrut} with\n{ind}| {empty} =>{do}\n{b}\n{ind}| {self.pat} =>{do}\n{a})"
+
+
+EXC_CLASSES = ("IndexError", "KeyError", "ZeroDivisionError", "ValueError", "TypeError", "AttributeError")
+
+
+def t_paren(t: str) -> str:
+    return f"({t})" if " " in t else t
 
 
 def t_app(ctor: str, arg: str) -> str:
@@ -741,17 +978,24 @@ def translate(cfg) -> str:
         lines += [f"  {f} : {lean_type(t)}" for f, t in fields]
         lines += ["  deriving Repr, Inhabited, DecidableEq", ""]
     lines.append("/-- the function's local variables (defaults are never read: definite assignment is checked) -/")
-    lines.append("structure St where")
+    tp = cfg.get("type_params") or []
+    lines.append("structure St " + "".join(f"({t} : Type) " for t in tp) + "where")
     if not fn.vars:
         lines.append("  unit : Unit := ()")
     for v, t in fn.vars.items():
         lt = lean_type(t)
         lines.append(f"  {v} : {lt} := {DEFAULT.get(t, '[]')}")
-    lines += ["  deriving Repr, Inhabited", ""]
+    lines += ["  deriving Inhabited" if tp else "  deriving Repr, Inhabited", ""]
     lines += fn.loops
-    params = " ".join(f"({p} : {lean_type(t)})" for p, t in cfg["params"])
-    lines.append(f"def run {params} : {lean_type(cfg['ret_type'])} :=")
-    lines.append("  let s : St := {}")
+    for v, t in fn.vars.items():
+        if "?" in t:
+            raise Untranslatable(f"the element type of the list {v} is never determined")
+    params = fn.tparams() + " ".join(f"({p} : {lean_type(t)})" for p, t in cfg["params"])
+    if fn.M:
+        lines.append(f"def run {params} : Except Exc {t_paren(lean_type(cfg['ret_type']))} := do")
+    else:
+        lines.append(f"def run {params} : {lean_type(cfg['ret_type'])} :=")
+    lines.append(f"  let s : {fn.st_type()} := {{}}")
     lines.append(body)
     lines += ["", f"end Generated.Py.{cfg['name']}", ""]
     return "\n".join(lines)
@@ -763,6 +1007,34 @@ namespace Generated.Py
 
 /-- `str(i)` / `f"{i}"` for an `int`, as code points (checked against Python by C10's correspondence) -/
 def strOfInt (i : Int) : List Nat := Model.Escape.intRepr i
+
+/-! ### exceptions (functions translated with `raises=True` live in `Except Exc`)
+
+An exception is represented by its class only (messages, causes and tracebacks are not modelled); the classes are
+leaves of Python's hierarchy, so `except E` catches exactly the value `Exc.E`. -/
+inductive Exc | IndexError | KeyError | ZeroDivisionError | ValueError | TypeError | AttributeError
+  deriving DecidableEq, Repr, Inhabited
+
+/-- `a % b` on ints: `ZeroDivisionError` for `b = 0`, otherwise the remainder of floor division (sign of `b`) -/
+def pyMod (a b : Int) : Except Exc Int :=
+  if b = 0 then .error .ZeroDivisionError else .ok (Int.fmod a b)
+
+/-- `a / b` on floats, as exact rationals (the float caveat of DESIGN §6): `ZeroDivisionError` for `b = 0` -/
+def pyDiv (a b : Rat) : Except Exc Rat :=
+  if b = 0 then .error .ZeroDivisionError else .ok (a / b)
+
+/-- `xs[i]` on a list: `-len ≤ i < 0` counts from the end, outside `-len ≤ i < len` raises `IndexError` -/
+def pyIndex {α : Type} (xs : List α) (i : Int) : Except Exc α :=
+  let j := if i < 0 then i + Int.ofNat xs.length else i
+  if j < 0 then .error .IndexError else
+    match xs[j.toNat]? with
+    | some x => .ok x
+    | none => .error .IndexError
+
+/-- `sum(xs)`: `0 + x₀ + x₁ + …` from the left (floats as exact rationals; the empty sum is the int `0`) -/
+def sumRat (xs : List Rat) : Rat := xs.foldl (· + ·) 0
+
+def sumInt (xs : List Int) : Int := xs.foldl (· + ·) 0
 
 end Generated.Py
 '''
